@@ -730,46 +730,65 @@ func (e *l2Env) idleFor(d time.Duration) bool {
 	return e.w.Log.Len() == n
 }
 
-// expectRebroadcast checks that after the block announced at seq every peer
-// received a new inv for every transaction in want.
-func (e *l2Env) expectRebroadcast(seq int64, want []*l2Call, round int) {
+// awaitRebroadcast waits until every peer received a new inv (after seq) for
+// every transaction in want. It returns the transactions some peer did not
+// get one for, and whether that miss is conclusive: all peers connected and
+// the event log at rest for 5 s afterwards (longer than BroadcastTimeout, the
+// longest pause inside a running rebroadcast round: no round is running).
+func (e *l2Env) awaitRebroadcast(seq int64, want []*l2Call) (missed []*l2Call, conclusive bool) {
 	bound := 10*time.Second + time.Duration(len(want)+1)*e.bto
+	all := func(c *l2Call) bool { return len(e.invSeen(c.Hash, seq)) == len(e.peers) }
 	for _, c := range want {
-		ok := l2.WaitFor(bound, func() bool { return len(e.invSeen(c.Hash, seq)) == len(e.peers) })
 		e.res.Count("l2_rebroadcast_expectations", 1)
-		if ok {
+		if l2.WaitFor(bound, func() bool { return all(c) }) {
 			e.res.Count("l2_rebroadcast_seen_by_all_peers", 1)
 			continue
 		}
-		seen := e.invSeen(c.Hash, seq)
-		var missing []string
-		for _, p := range e.peers {
-			if !seen[p] {
-				missing = append(missing, p)
-			}
-		}
-		if int(e.w.Svc.ConnectedCount()) < len(e.peers) {
-			e.res.Inconcl("rebroadcast missed by a peer while not all peers were connected")
-			continue
-		}
-		if !e.idleFor(5 * time.Second) {
-			e.res.Inconcl("rebroadcast not seen within its bound while the client was still exchanging messages")
-			continue
-		}
-		if len(e.invSeen(c.Hash, seq)) == len(e.peers) {
-			e.res.Count("l2_rebroadcast_seen_by_all_peers", 1)
-			continue
-		}
-		how := "mempool-duplicate"
-		if v := e.viewOf(c); v != nil && len(v.Rejected) == 0 {
-			how = "accepted"
-		}
-		e.res.Violate(evid.Sig("c15/l2/no-rebroadcast-after-block", how, fmt.Sprintf("block-%d", round)),
-			fmt.Sprintf("SendTransaction(%s) returned nil; block %d not containing it was announced by every peer and reported by the client as best block, "+
-				"but %d of %d connected peers received no new inv for it within %v, and the network then stood still for 5 s",
-				c.Hash.String()[:12], round, len(missing), len(e.peers), bound),
-			e.witness(c, map[string]any{"peers_without_inv": missing, "announce_seq": seq}))
+		missed = append(missed, c)
 	}
+	if len(missed) == 0 {
+		return nil, true
+	}
+	if int(e.w.Svc.ConnectedCount()) < len(e.peers) {
+		e.res.Inconcl("rebroadcast missed by a peer while not all peers were connected")
+		return missed, false
+	}
+	if !e.idleFor(5 * time.Second) {
+		e.res.Inconcl("rebroadcast not seen within its bound while the client was still exchanging messages")
+		return missed, false
+	}
+	var still []*l2Call
+	for _, c := range missed {
+		if all(c) {
+			e.res.Count("l2_rebroadcast_seen_by_all_peers", 1)
+		} else {
+			still = append(still, c)
+		}
+	}
+	return still, true
+}
+
+// settle waits until the event log has been at rest for longer than
+// BroadcastTimeout (so no rebroadcast round is running: a block event arriving
+// during a round starts none, by design).
+func (e *l2Env) settle() bool {
+	for i := 0; i < 8; i++ {
+		if e.idleFor(e.bto + time.Second) {
+			return true
+		}
+	}
+	return false
+}
+
+func (e *l2Env) missingPeers(c *l2Call, seq int64) []string {
+	seen := e.invSeen(c.Hash, seq)
+	var missing []string
+	for _, p := range e.peers {
+		if !seen[p] {
+			missing = append(missing, p)
+		}
+	}
+	return missing
 }
 
 // viewOf returns what the oracle derived for a call that has returned (nil
@@ -831,6 +850,10 @@ func (e *l2Env) rebroadcast() {
 	}
 	for round := 1; round <= 2; round++ {
 		acc, _ := pending()
+		if round > 1 && !e.settle() {
+			e.res.Inconcl("network never at rest before the next block")
+			return
+		}
 		seq, ok := e.announce()
 		if !ok {
 			return
@@ -839,25 +862,69 @@ func (e *l2Env) rebroadcast() {
 		if round == 1 && len(acc) > 0 {
 			// A further SendTransaction racing the rebroadcast round: the
 			// only way two sendTransaction queries of the client overlap.
-			l2.WaitFor(5*time.Second, func() bool { return len(e.invSeen(acc[0].Hash, seq)) > 0 || len(e.invSeen(acc[len(acc)-1].Hash, seq)) > 0 })
+			l2.WaitFor(5*time.Second, func() bool {
+				for _, c := range acc {
+					if len(e.invSeen(c.Hash, seq)) > 0 {
+						return true
+					}
+				}
+				return false
+			})
 			prof := l2Profiles[e.rng.Intn(len(l2Profiles)-1)] // not the late profile: its late rejects would fall into later rounds
 			racer = e.newCall(l2Script(e.rng, e.peers, prof, false), prof, "with-rebroadcast")
 			e.rc.run(racer)
 		}
-		e.expectRebroadcast(seq, acc, round)
+		missed, conclusive := e.awaitRebroadcast(seq, acc)
 		if racer != nil && !e.awaitCalls(racer) {
 			return
+		}
+		if len(missed) > 0 && conclusive {
+			// A missing round is only a violation if a second block event,
+			// issued while the client is provably at rest, produces none
+			// either.
+			e.res.Count("l2_rebroadcast_second_trigger", 1)
+			seq2, ok := e.announce()
+			if !ok {
+				return
+			}
+			missed2, conclusive2 := e.awaitRebroadcast(seq2, missed)
+			for _, c := range missed2 {
+				if !conclusive2 {
+					break
+				}
+				how := "mempool-duplicate"
+				if v := e.viewOf(c); v != nil && len(v.Rejected) == 0 {
+					how = "accepted"
+				}
+				miss := e.missingPeers(c, seq2)
+				e.res.Violate(evid.Sig("c15/l2/no-rebroadcast-after-block", how),
+					fmt.Sprintf("SendTransaction(%s) returned nil; two consecutive blocks not containing it were announced by every peer and reported by the client as best block "+
+						"while the network was at rest, but %d of %d connected peers received no new inv for it after either, and the network then stood still for 5 s",
+						c.Hash.String()[:12], len(miss), len(e.peers)),
+					e.witness(c, map[string]any{"peers_without_inv": miss, "announce_seqs": []int64{seq, seq2}}))
+			}
 		}
 	}
 	// Let the last round finish before the "never again" check: every
 	// pending transaction of the round has been announced; wait until the
 	// log stands still.
-	for i := 0; i < 6 && !e.idleFor(time.Second); i++ {
-	}
+	e.settle()
 	_, rej := pending()
 	for _, c := range rej {
+		// Only announcements after a block that followed the call's return
+		// count (the invs of the call itself are all older than that).
+		after := int64(-1)
+		for _, ev := range e.rc.snapshot() {
+			if ev.What == "block-announce" && ev.Seq > c.RetSeq {
+				after = ev.Seq
+				break
+			}
+		}
+		if after < 0 {
+			continue
+		}
 		e.res.Count("l2_rejected_tx_watched", 1)
-		if seen := e.invSeen(c.Hash, c.RetSeq); len(seen) > 0 {
+		if seen := e.invSeen(c.Hash, after); len(seen) > 0 {
 			var ps []string
 			for p := range seen {
 				ps = append(ps, p)
